@@ -43,9 +43,9 @@ func zzC05LookBack(bc *core.BlockChain, r uint64, isCert bool) (state.ValidatorR
 
 type zzC05Reader1 struct{ vals *state.Validators }
 
-func (r zzC05Reader1) GetValidatorsStat() (*state.ValidatorsStat, error)          { return nil, nil }
+func (r zzC05Reader1) GetValidatorsStat() (*state.ValidatorsStat, error)        { return nil, nil }
 func (r zzC05Reader1) GetValidatorByMainAddr(a common.Address) *state.Validator { return nil }
-func (r zzC05Reader1) GetValidators() *state.Validators                          { return r.vals }
+func (r zzC05Reader1) GetValidators() *state.Validators                         { return r.vals }
 
 // ---- idealised BLS with a signing oracle ----
 
@@ -55,8 +55,8 @@ func (s *zzC05Sig) Compress() (c bls.CompressedSignature) { return }
 
 type zzC05PK struct{ id byte }
 
-func (p *zzC05PK) Aggregate(bls.PublicKey) error           { return nil }
-func (p *zzC05PK) Compress() (c bls.CompressedPublic)      { return }
+func (p *zzC05PK) Aggregate(bls.PublicKey) error      { return nil }
+func (p *zzC05PK) Compress() (c bls.CompressedPublic) { return }
 func (p *zzC05PK) Verify(m bls.Message, sig bls.Signature) error {
 	var h common.Hash
 	copy(h[:], m[:32])
